@@ -131,6 +131,7 @@ CONN_PLANS = {
                  ('pinghandler', ['PingRunsHandler'], C({1, 2, 3}, M())),
                  ('dupexecP', ['DupExec'], C({1, 2, 3}, M(sp=True)))],
         'sims': HAPPY_SIMS + FAULT_SIMS[:2],
+        'also_transport': 'C14',
     },
     'C05': {
         'own': 'C05',
@@ -291,6 +292,13 @@ def conn_check(pid, tier, replay_file=None):
         if len(cov['samples']) < 4 and cfgs:
             cov['samples'].append({'stress_config': cfgs[0], 'result': {k: v for k, v in (results[0] if results else {}).items() if k != 'failures'}})
         lap('stress')
+    if plan.get('also_transport') and not replay_file:
+        # the same property one layer up: schedules of Transport.tla with kills/restarts (no retry, no duplicate execution)
+        tv, tcov, tass = trans_core(pid, TRANS_PLANS[plan['also_transport']], tier, None, models=False)
+        violations.extend(tv)
+        cov['transport_layer'] = {k: tcov[k] for k in ('schedules_replayed', 'traces_validated_against_impl', 'trace_events')}
+        cov['traces_validated_against_impl'] += tcov['traces_validated_against_impl']
+        lap('transport_layer')
     cov['phase_wall_s'] = phase
     print('phases:', phase)
     for n in notes[:20]:
@@ -302,3 +310,128 @@ def conn_check(pid, tier, replay_file=None):
 
 for _p in CONN_PLANS:
     REGISTRY[_p] = conn_check
+
+
+# ---------------------------------------------------------------------------
+# Transport family (C13 C14 C15)
+import transfam as tf
+TC = tf.consts
+TRANS_PLANS = {
+    'C13': {
+        'own': 'C13',
+        'models': {'quick': [('t1', TC(ids=3, callers=(1, 2), maxclock=2, maxcalls=2, kills=1))],
+                   'thorough': [('t1', TC(ids=3, callers=(1, 2), maxclock=4, maxcalls=2, kills=1)),
+                                ('t2', TC(addrs=('a', 'b'), ids=3, callers=(1, 2), maxclock=2, maxcalls=2, kills=1)),
+                                ('t3', TC(ids=4, callers=(1, 2, 3), maxconns=2, maxidle=2, maxclock=2, maxcalls=1, kills=0))]},
+        'devs': [('diallimit', ['DialNoLimit'], TC(ids=3, maxclock=2)),
+                 ('enqlimit', ['EnqueueNoLimit'], TC(ids=3, maxclock=3)),
+                 ('overflow', ['OverflowNotClosed'], TC(ids=3, maxclock=3))],
+        'sims': [('s1', TC(ids=6, callers=(1, 2, 3), maxclock=6, maxcalls=4, kills=2)),
+                 ('s2', TC(addrs=('a', 'b'), ids=6, callers=(1, 2), maxclock=6, maxcalls=4, kills=2)),
+                 ('s3', TC(ids=6, callers=(1, 2, 3), maxconns=3, maxidle=2, maxclock=6, maxcalls=4, kills=1)),
+                 ('s4', TC(ids=6, callers=(1, 2), maxconns=1, maxidle=1, maxclock=6, maxcalls=5, kills=2))],
+        'bursts': True,
+    },
+    'C14': {
+        'own': 'C14',
+        'models': {'quick': [('t1', TC(ids=3, callers=(1, 2), maxclock=2, maxcalls=2, kills=1))],
+                   'thorough': [('t1', TC(ids=4, callers=(1,), maxclock=4, maxcalls=5, kills=2)),
+                                ('t2', TC(addrs=('a', 'b'), ids=3, callers=(1, 2), maxclock=2, maxcalls=2, kills=1))]},
+        'devs': [('deadidle', ['NoAliveCheckOnIdle'], TC(ids=3, maxclock=3)),
+                 ('wrongaddr', ['WrongAddress'], TC(addrs=('a', 'b'), ids=3, maxclock=3)),
+                 ('nomark', ['NoMarkDead'], TC(ids=3, callers=(1,), maxclock=1, maxcalls=6, kills=1))],
+        'sims': [('s1', TC(ids=6, callers=(1, 2), maxclock=6, maxcalls=5, kills=2)),
+                 ('s2', TC(addrs=('a', 'b'), ids=6, callers=(1, 2), maxclock=6, maxcalls=4, kills=2)),
+                 ('s4', TC(ids=6, callers=(1,), maxconns=1, maxidle=1, maxclock=6, maxcalls=6, kills=2)),
+                 ('s5', TC(ids=6, callers=(1,), maxconns=2, maxidle=2, ka=1, ito=3, maxclock=8, maxcalls=6, kills=2))],
+    },
+    'C15': {
+        'own': 'C15',
+        'models': {'quick': [('t1', TC(ids=3, callers=(1, 2), maxclock=3, maxcalls=2, kills=0))],
+                   'thorough': [('t1', TC(ids=3, callers=(1, 2), maxclock=4, maxcalls=2, kills=1)),
+                                ('t3', TC(ids=3, callers=(1, 2), maxconns=2, maxidle=2, ka=1, ito=1, maxclock=4, maxcalls=2, kills=0))]},
+        'devs': [('idlebusy', ['IdleCloseIgnoresBusy'], TC(ids=3, maxclock=4, kills=0)),
+                 ('retirebusy', ['RetireBusy'], TC(ids=3, maxclock=3, kills=0)),
+                 ('closeidlebusy', ['CloseIdleBusy'], TC(ids=3, maxclock=2, kills=0))],
+        'sims': [('s1', TC(ids=6, callers=(1, 2, 3), maxclock=8, maxcalls=4, kills=0)),
+                 ('s3', TC(ids=6, callers=(1, 2), maxconns=2, maxidle=2, ka=1, ito=1, maxclock=8, maxcalls=4, kills=1)),
+                 ('s4', TC(ids=6, callers=(1, 2), maxconns=1, maxidle=1, maxclock=8, maxcalls=5, kills=0))],
+    },
+}
+
+def trans_check(pid, tier, replay_file=None):
+    t0 = time.time()
+    violations, cov, assumptions = trans_core(pid, TRANS_PLANS[pid], tier, replay_file)
+    return finish(pid, tier, 'model_checking', cov, t0, violations, [], assumptions)
+
+def trans_core(pid, plan, tier, replay_file=None, models=True):
+    sd = seed()
+    assumptions = ['servers are in-process (one rpc.Server per address) reached through Transport.Dial over the harness\'s in-memory wire',
+                   'pool decisions are stamped under connsMu by the add-only hooks; time advances in real units of 6 ms with KeepAlive/IdleConnTimeout set half a unit above the model value',
+                   'callers use the synchronous Call (reading R3); a caller holding a connection it has not registered on yet is not protected from housekeeping (reading R4)']
+    violations, known_hits, notes = [], [], []
+    cov = {'model_runs': [], 'deviation_runs': [], 'states': 0, 'transitions': 0, 'traces_validated_against_impl': 0, 'samples': [],
+           'schedules_replayed': 0, 'trace_events': 0}
+    schedules = []
+    if replay_file:
+        schedules = [json.load(open(replay_file))['schedule']]
+    else:
+        for tag, c in ([] if (os.environ.get('VERIF_SKIP_MC') or not models) else plan['models'].get(tier, plan['models']['quick'])):
+            res = tf.model_check('%s_%s' % (pid, tag), c, timeout=3000 if tier == 'thorough' else 600)
+            cov['model_runs'].append({'instance': tag, 'constants': res['consts'], 'distinct_states': res['distinct'],
+                                      'states_generated': res['states'], 'depth': res['depth'], 'complete': res['complete'], 'wall_s': round(res['wall'], 1)})
+            cov['states'] += res['distinct']; cov['transitions'] += res['states']
+            if res['violated']:
+                raise Machinery('the intended Transport design (Dev = {}) violates %s in instance %s\n%s' % (res['violated'], tag, res['out'][-2500:]))
+            if not res['complete']:
+                raise Machinery('model checking of %s did not complete' % tag)
+        for tag, dev, c in plan['devs']:
+            s, res = tf.deviation_schedule('%s_%s' % (pid, tag), c, dev)
+            cov['deviation_runs'].append({'deviation': dev, 'violated_in_model': res['violated'], 'states_generated': res['states'],
+                                          'schedule_len': len(s['steps']) if s else 0})
+            if s is None:
+                raise Machinery('deviation %s produced no counterexample (vacuity)' % dev)
+            schedules.append(s)
+        nsim = 40 if tier == 'quick' else 400
+        for j, (tag, c) in enumerate(plan['sims']):
+            ss, res = tf.sim_schedules('%s_%s' % (pid, tag), c, nsim, 45, sd * 1000 + j)
+            schedules.extend(ss)
+        if plan.get('bursts'):
+            # concurrent callers racing for the pool (no gates): limits and their normalisation
+            for j, (mc, mi, raw) in enumerate([(2, 1, None), (1, 1, (0, 0)), (1, 1, (-1, 5)), (2, 2, (2, 5)), (3, 2, None), (1, 1, None)]):
+                cfg = {'Addrs': ['a'], 'MaxConns': mc, 'MaxIdle': mi, 'KeepAlive': 1, 'IdleTO': 2, 'UnitMs': 6}
+                if raw:
+                    cfg.update({'UseRaw': True, 'RawMaxConns': raw[0], 'RawMaxIdle': raw[1]})
+                for rep in range(3 if tier == 'quick' else 12):
+                    steps = [{'a': 'Get', 'k': 1, 'addr': 'a'}, {'a': 'Register', 'k': 1}, {'a': 'Return', 'k': 1},
+                             {'a': 'Burst', 'k': 6 + rep, 'addr': 'a'}, {'a': 'Advance'}, {'a': 'Advance'}, {'a': 'Tick'},
+                             {'a': 'Burst', 'k': 5, 'addr': 'a'}, {'a': 'Advance'}, {'a': 'Advance'}, {'a': 'Advance'}, {'a': 'Tick'}, {'a': 'Tick'},
+                             {'a': 'Burst', 'k': 4, 'addr': 'a'}]
+                    schedules.append({'name': 'burst:%d:%d' % (j, rep), 'cfg': cfg, 'steps': steps})
+    rp, crashes = tf.replay(schedules, pid)
+    for cr in crashes:
+        first = cr['panic'].splitlines()[0] if cr['panic'] else 'crash'
+        violations.append({'property': pid, 'signature': 'crash:' + first[:80], 'summary': '%s: the process crashed inside hslam/rpc: %s' % (pid, first),
+                           'schedule': None, 'finding': {'kind': 'crash', 'panic': cr['panic']}, 'trace': []})
+    for gk, (tracefile, results, ss) in sorted(rp.items()):
+        cov['schedules_replayed'] += len(ss)
+        accepted, findings, stats = tf.validate(tracefile, ss[0]['cfg'], pid, [s['name'] for s in ss])
+        cov['traces_validated_against_impl'] += accepted
+        cov['trace_events'] += stats['events']
+        for f in findings:
+            owner = tf.OWN.get(f['what'], pid) if f['kind'] == 'invariant' else pid
+            sig = '%s:%s@%s' % (f['kind'], f['what'] if f['kind'] == 'invariant' else 'rejected', f['event'].get('ev', ''))
+            summary = '%s%s: %s at event %s (trace %s)' % ('' if owner == pid else '[invariant owned by %s] ' % owner, owner, f['what'],
+                                                          json.dumps({k: f['event'].get(k) for k in ('ev', 'c', 'a', 'b', 's')}), f['name'])
+            sch = ss[f['trace']] if f['trace'] < len(ss) else None
+            violations.append({'property': owner, 'signature': sig, 'summary': summary, 'schedule': sch,
+                               'finding': {k: f[k] for k in ('kind', 'what', 'event', 'pos_in_trace', 'name')}, 'trace': f['trace_events']})
+        if len(cov['samples']) < 3 and ss:
+            tr = cf.split_traces(tracefile)
+            cov['samples'].append({'schedule': ss[0]['name'], 'steps': ss[0]['steps'][:40], 'trace_excerpt': [json.loads(x) for x in tr[0][:25]] if tr else []})
+    cov['rule'] = ('states/transitions: exhaustive TLC runs of Transport.tla (Dev={}); traces: executions of the real rpc.Transport driven by TLC '
+                   'behaviours (simulation + deviation counterexamples + concurrent bursts), each accepted by TransportTrace with the pool invariants checked in every state')
+    return violations, cov, assumptions
+
+for _p in TRANS_PLANS:
+    REGISTRY[_p] = trans_check
